@@ -12,7 +12,7 @@ use miniz_oxide::inflate::TINFLStatus;
 use miniz_oxide::{DataFormat, MZFlush};
 use serde_json::{json, Value};
 
-pub const ENTRY: &[&str] = &["flat", "ring32k", "flat-ignore-adler", "inflate", "inflate-ignore-adler", "mz_inflate", "mz_uncompress", "tinfl_decompress", "tinfl_mem_to_mem", "flat-reused", "inflate-reused", "flat-reused-abandoned", "flat-reused-failed", "inflate-reused-abandoned", "inflate-finish"];
+pub const ENTRY: &[&str] = &["flat", "ring32k", "flat-ignore-adler", "inflate", "inflate-ignore-adler", "mz_inflate", "mz_uncompress", "tinfl_decompress", "tinfl_mem_to_mem", "flat-reused", "inflate-reused", "flat-reused-abandoned", "flat-reused-failed", "inflate-reused-abandoned", "inflate-finish", "mz_inflate-finish"];
 
 /// A complete small stream of the *other* framing, decoded by the object before it is
 /// re-initialised and used for the stream under test ("which entry point" includes a recycled decoder).
@@ -159,6 +159,42 @@ pub fn consumed_via(ep: &str, s: &GenStream, data: &[u8], ch: usize) -> Result<(
             }
             Ok(())
         }
+        "mz_inflate-finish" => unsafe {
+            // first piece with MZ_NO_FLUSH, then MZ_FINISH with 7-byte output windows: every
+            // MZ_BUF_ERROR return in between has consumed input and delivered bytes
+            let mut zs = capi::new_stream();
+            let rc = miniz_oxide_c_api::mz_inflateInit2(&mut zs, if s.zlib { 15 } else { -15 });
+            if rc != 0 {
+                return Err(format!("mz_inflateInit2 returned {}", rc));
+            }
+            let cuts = cuts_of(ch, data.len());
+            let first = if cuts.is_empty() { 1 } else { cuts[0] }.clamp(1, data.len());
+            let mut out = vec![];
+            let o = capi::stream_call(&mut zs, true, data, 0, first, n + 64, 0, Place::End).map_err(|e| format!("mz_inflate accounting: {}", e))?;
+            let mut ip = o.consumed;
+            out.extend_from_slice(&o.out);
+            let mut ended = o.ret == 1;
+            let mut guard = 0;
+            while !ended {
+                let o = capi::stream_call(&mut zs, true, data, ip, data.len() - ip, 7, 4, Place::End).map_err(|e| format!("mz_inflate(MZ_FINISH) accounting: {}", e))?;
+                ip += o.consumed;
+                out.extend_from_slice(&o.out);
+                if o.ret == 1 {
+                    ended = true;
+                } else if !(o.ret == 0 || o.ret == -5) || (o.consumed == 0 && o.written == 0) || guard > 200_000 {
+                    miniz_oxide_c_api::mz_inflateEnd(&mut zs);
+                    return Err(format!("mz_inflate(MZ_FINISH, 7-byte windows) returned {} after {} of {} bytes", o.ret, out.len(), n));
+                }
+                guard += 1;
+            }
+            let total_in = zs.total_in as usize;
+            miniz_oxide_c_api::mz_inflateEnd(&mut zs);
+            check("mz_inflate with MZ_FINISH", ended, ip, &out)?;
+            if total_in != want {
+                return Err(format!("mz_inflate with MZ_FINISH: total_in {} != stream length {}", total_in, want));
+            }
+            Ok(())
+        },
         "mz_inflate" => unsafe {
             let mut zs = capi::new_stream();
             let rc = miniz_oxide_c_api::mz_inflateInit2(&mut zs, if s.zlib { 15 } else { -15 });
